@@ -57,5 +57,10 @@ CLAIMS["C18"] = {
     "text": "Symbolic execution of (*v2).DeploymentGroups and (*v2).Manifest (with toResourceUnits, ParseServiceProtocol, ShouldBeIngress, the real sort code) on a decoded SDL value with symbolic leaves; obligations: every declared image/command/argument/env/exposure/count/resources/price appears unchanged at its place in the outputs; for valid documents the real ValidateManifestWithGroupSpecs accepts the manifest against the groups of the same document; and, as a 2-run self-composition over every Go map iteration order, groups and manifest are identical on every run.",
     "note": "Trusted: engine SSA semantics, sort via real code, regexps evaluated natively on concrete names. Bounds: <=2 services x <=2 placements x <=2 profiles, 1..2 exposes. YAML decoding, unit-string parsing and the version hash are outside this family (stated); key reordering is covered as Go map order.",
 }
+LOOP_NOTE = "Trusted: engine SSA semantics; the single-goroutine environment model (goroutine bodies run atomically at scheduler-chosen points; true interleavings inside a component and data races are outside); harness stubs for collaborators. Counterexample schedules are replayed natively against the real goroutines with gated stubs."
+CLAIMS["C13"] = {
+    "text": "Bounded symbolic exploration of the real (*order).run select loop: at every select the solver-driven scheduler picks among ready channels and pending goroutine tasks, so chain events (6 kinds), completion or failure of every asynchronous step, the bid timeout and shutdown arrive at every point of the pipeline, including after the loop has exited; obligations on the collaborator call log: at most one bid, never above the maximum price, only after a successful reservation, and when the order ends without a won lease every reservation is released and a close-bid is submitted for a placed bid; the function returns.",
+    "note": LOOP_NOTE + " Depth: 7/8 selects quick, 9/10 thorough, <=2 events.",
+}
 NOT_APPLICABLE = {}
 NOTES = "Work in progress: checks are added property by property; see DESIGN.md §9 for deviations from the plan."
